@@ -21,3 +21,16 @@ Theorem C09_caller_wake_answers : forall w c,
   aget CNone c (callers w) = CWaiting \/ aget CNone c (callers w) = CTimedOut ->
   exists w', caller_wake w c = Ok w' /\ has_done c (trace w').
 Proof. exact caller_wake_answers. Qed.
+
+(* a caller cancelled from OUTSIDE (an outer wait_for, a shutdown) is answered with the cancellation, and neither the cancel nor the wake-up
+   touches the state machine: a command in flight is then cleared by its expiry timer alone *)
+Theorem C09_cancel_schedules_wake : forall w c,
+  aget CNone c (callers w) = CWaiting ->
+  exists w', caller_cancel w c = Ok w' /\ aget CNone c (callers w') = CCancelled /\ cx w' = cx w /\
+             (fut_done (fut_of w c) = true \/ (In (CbCallerWake c) (ready w') /\ fut_of w' c = FCancelled)).
+Proof. exact cancel_schedules_wake. Qed.
+
+Theorem C09_cancelled_caller_answered : forall w c,
+  aget CNone c (callers w) = CCancelled ->
+  exists w', caller_wake w c = Ok w' /\ In (Done (now w) c ErrCancelled) (trace w') /\ cx w' = cx w.
+Proof. exact cancelled_caller_answered. Qed.
